@@ -32,6 +32,37 @@ def role(body, op, now_pred):
     return "?"
 
 
+def whole_heap_scan(b):
+    """the function's boolean answer derives from `self.heap.iter()` consumed by any / find / position / all /
+    filter / a `for` loop, with a predicate comparing the entry's `counter` with the function's parameter"""
+    f = b.facts
+    iters = [c.bb for c in T.calls(b, name=("iter", "into_iter", "iter_mut", "drain", "into_sorted_vec", "into_vec", "as_slice")) if T.path_has(b, c.args[0], ".heap") and not b.is_cleanup(c.bb)]
+    if not iters:
+        return False
+    ok = False
+    for c in T.calls(b, name=("any", "find", "position", "all", "filter", "find_map", "contains")):
+        if b.is_cleanup(c.bb) or not T.tainted_by_call(b, c.args[0], iters):
+            continue
+        for cb in T.closure_bodies_passed(b, c):
+            for i, j, st in cb.statements():
+                if st["s"] == "assign" and st["rv"]["r"] == "bin" and st["rv"]["op"] in ("Eq", "Ne"):
+                    fc = T.field_cmp(cb, st["rv"])
+                    if fc and "counter" in (fc[1], fc[3]):
+                        ok = True
+    # an explicit loop over the iterator
+    for h, blk in b.loops().items():
+        hc = b.call_at(h)
+        if hc is None or hc.name != "next" or not T.tainted_by_call(b, hc.args[0], iters):
+            continue
+        for i, j, st in b.statements():
+            if i in blk and st["s"] == "assign" and st["rv"]["r"] == "bin" and st["rv"]["op"] in ("Eq", "Ne"):
+                fc = T.field_cmp(b, st["rv"])
+                if fc and "counter" in (fc[1], fc[3]):
+                    ok = True
+    # the returned value must come from that scan
+    return ok and T.tainted_by_call(b, {"c": {"l": 0, "p": [], "t": 0}}, iters)
+
+
 def cancel_rules(ck, C):
     f = ck.facts
     tu = ck.body(C, "<Timer as EventSource>::unregister")
@@ -218,7 +249,28 @@ def run(ck):
                         if on is not None and on["l"] == st["pl"]["l"]:
                             if T.reachable_only_via(pe, cb.bb, T.edges_of_value(pe, sw, st["rv"]["op"] == "Eq")):
                                 ok6 = True
+        # the wheel predicates that guard is built on must look at the *whole* heap: the re-armed entry is in general
+        # not the earliest one
+        for q in pe.calls():
+            cbq = q.callee_body()
+            if cbq is None or not cbq.path.startswith("sources::timer::TimerWheel::") or q.name in ("insert", "insert_reuse", "cancel", "new"):
+                continue
+            if not any(T.path_has(pe, a, ".counter") for a in q.args[1:]):
+                continue
+            whole = whole_heap_scan(cbq)
+            ck.verdict(whole, "6", "T6-provenance", cbq, "arming-lookup-scans-whole-heap", "the answer is computed from an iteration over every entry of the heap, comparing each entry's counter with the asked one", "%s does not scan the whole heap for the asked counter (it looks at the head only, or at nothing): when another timer has an earlier deadline the pending re-armed entry is not seen, and the stale expiry of the previous arming fires the callback" % cbq.qual, site=cbq.where())
         ck.verdict(ok6, "6", "T4-guarded-by", pe, "callback-only-for-current-arming", "the callback is control-dependent on a check involving registration.counter: an expiry event of an earlier arming (same token, already re-armed from another callback in the batch) is ignored", "the only guard of the timer callback is the token, which is identical for every arming of the timer: after set_deadline()+update() from another source's callback in the batch in which it expired, the stale expiry event fires the callback before the new deadline (and a reschedule then leaves two entries in the heap)", site=pe.where(cb.bb))
+    # a ToDuration(d) reschedule counts from *now* (sampled after the callback returned), not from the deadline that
+    # just fired: counted from the old deadline the new arming is early by however late the old one was served
+    cbs_pe = T.calls(pe, name=("call_mut", "call", "call_once"), self_kind=("param",))
+    adds = [c for c in pe.calls() if not pe.is_cleanup(c.bb) and c.name in ("checked_add", "add", "saturating_add") and c.f and "Instant" in (c.f.get("full") or c.f["path"])]
+    for a in adds:
+        from_cb = any(T.tainted_by_call(pe, x, [c.bb for c in cbs_pe]) for x in a.args[1:])
+        if not from_cb:
+            continue
+        nows = [c.bb for c in pe.calls() if c.f and c.f["path"] == "std::time::Instant::now" and not pe.is_cleanup(c.bb) and any(pe.dominates(cb.bb, c.bb) for cb in cbs_pe)]
+        base_ok = bool(nows) and T.resolves_to_call(pe, a.args[0], nows)
+        ck.verdict(base_ok, "3", "T6-provenance", pe, "ToDuration-counts-from-now-after-callback", "the duration returned by the callback is added to Instant::now() sampled after the callback", "the duration returned by the callback is not added to an Instant::now() sampled after the callback (%s): the next arming fires earlier than `duration` after the callback returned" % pe.roots_str(a.args[0]), site=pe.where(a.bb))
     ir = T.calls(pe, name="insert_reuse")
     ck.floor("5", "Timer::process_events: insert_reuse", len(ir), 1)
     for c in ir:
@@ -261,6 +313,8 @@ def run(ck):
     # ---- clause 5a: fresh identity per arming --------------------------------------------------------------------
     ins = ck.body("5", "TimerWheel::insert")
     pushes = [cs for cs in T.calls(ins, name="push") if T.path_has(ins, cs.args[0], ".heap")]
+    # .. or through the sibling that pushes under a given counter, given the wheel's current one
+    pushes += [cs for cs in T.calls(ins, name="insert_reuse") if cs.callee_body() is not None and not ins.is_cleanup(cs.bb) and T.path_has(ins, cs.args[1], ".counter")]
     ctr_stores = [(i, st) for i, j, st in T.stores_to_field(ins, "counter") if f.adt_path(f.peel_refs(ins.local_ty(st["pl"]["l"]))) == "sources::timer::TimerWheel"]
     ok = bool(pushes) and bool(ctr_stores)
     if ok:
@@ -282,6 +336,12 @@ def run(ck):
     from props.common import DispatchLoop
 
     try:
-        C09.take_and_reset(ck, "7", DispatchLoop(ck, "7"))
+        dl7 = DispatchLoop(ck, "7")
+        C09.take_and_reset(ck, "7", dl7)
+        # .. and a timer that disables / updates itself from its own callback gets exactly that action ("cancel is final")
+        C09.who_may_defer(ck, "7", dl7.body)
     except AnchorMissing:
         pass
+    from props import common as _common
+
+    _common.import_results(ck, C09, "2", "dispatch_events", "7")
